@@ -124,29 +124,30 @@ func CapitalizeSegments(segment string) string {
 	return ``
 }
 
+// RegexpQuote writes str as a regexp literal. The lexer keeps every escape sequence of a regexp literal as it is
+// (only `\/` is unescaped), so a backslash and the character that follows it are copied verbatim. A character that
+// cannot occur unescaped in a literal is written as the equivalent regexp escape.
 func RegexpQuote(b io.Writer, str string) {
 	WriteByte(b, '/')
+	escaped := false
 	for _, c := range str {
-		switch c {
-		case '\t':
-			WriteString(b, `\t`)
-		case '\n':
-			WriteString(b, `\n`)
-		case '\r':
-			WriteString(b, `\r`)
-		case '/':
+		switch {
+		case escaped:
+			escaped = false
+			WriteRune(b, c)
+		case c == '\\':
+			escaped = true
+			WriteByte(b, '\\')
+		case c == '/':
 			WriteString(b, `\/`)
-		case '\\':
-			WriteString(b, `\\`)
+		case c == '\n':
+			WriteString(b, `\n`)
+		case c == 0:
+			WriteString(b, `\x00`)
+		case c == utf8.RuneError:
+			WriteString(b, `\x{FFFD}`)
 		default:
-			if c < 0x20 {
-				_, err := fmt.Fprintf(b, `\u{%X}`, c)
-				if err != nil {
-					panic(err)
-				}
-			} else {
-				WriteRune(b, c)
-			}
+			WriteRune(b, c)
 		}
 	}
 	WriteByte(b, '/')
